@@ -12,7 +12,7 @@ use std::collections::{BTreeMap, BTreeSet};
 pub static SPEC: PropSpec = PropSpec {
     id: "C07",
     level: "exploration",
-    rule: "programs: a library of 16 generic functions / methods (identity, pairs, swaps, apply, callbacks whose result type occurs only in the callback's return type, containers Vec / Ref / array / Opt[T] / Box[T], bounded generics through trait bounds, generics calling generics at composed types, bounded recursion) instantiated in `main` at type tuples drawn from 14 concrete types (all integer widths used, bool, string, unit, tuples, arrays, Vec, Ref, structs, enums, generic instances, function types), plus randomly generated generic-heavy programs; each program is (1) executed and compared with refsem (generics by substitution), (2) monitored after mono: no duplicate function names, no type-parameter residue in Mono/Lift/ANF or in the Go text, and at least one Mono function per distinct (generic function, type tuple) used. distinct / non-trivial = distinct (generic item, type-argument tuple) pairs instantiated",
+    rule: "programs: a library of 18 generic functions / methods (a generic struct whose fields apply other generic types to its own parameter built and taken apart at generic-application arguments, identity, pairs, swaps, apply, callbacks whose result type occurs only in the callback's return type, containers Vec / Ref / array / Opt[T] / Box[T], bounded generics through trait bounds, generics calling generics at composed types, bounded recursion) instantiated in `main` at type tuples drawn from 14 concrete types (all integer widths used, bool, string, unit, tuples, arrays, Vec, Ref, structs, enums, generic instances, function types), plus randomly generated generic-heavy programs; each program is (1) executed and compared with refsem (generics by substitution), (2) monitored after mono: no duplicate function names, no type-parameter residue in Mono/Lift/ANF or in the Go text, and at least one Mono function per distinct (generic function, type tuple) used. distinct / non-trivial = distinct (generic item, type-argument tuple) pairs instantiated",
     eval_counter: "instantiations",
     assumptions: &["relative to refsem (generics by substitution) and gomini; instance counting is a lower bound (statically reachable instances may exceed dynamically used ones)"],
     crash_is_violation: false,
@@ -72,6 +72,8 @@ fn library() -> Lib {
     let structs = vec![
         StructDecl { name: "Pt".into(), tparams: vec![], fields: vec![("x".into(), I32), ("y".into(), Ty::Bool)], derives: vec![] },
         StructDecl { name: "Bx".into(), tparams: vec!["A".into()], fields: vec![("v".into(), tp("A")), ("n".into(), I32)], derives: vec![] },
+        // a generic struct whose field applies another generic type to its own parameter
+        StructDecl { name: "Wr".into(), tparams: vec!["A".into()], fields: vec![("inner".into(), boxt(tp("A"))), ("tag".into(), I32), ("alt".into(), opt(boxt(tp("A"))))], derives: vec![] },
     ];
     let enums = vec![
         EnumDecl { name: "Col".into(), tparams: vec![], variants: vec![("Red".into(), vec![]), ("Rgb".into(), vec![I32, I32])], derives: vec![] },
@@ -215,6 +217,42 @@ fn library() -> Lib {
             FnDecl { name: "count".into(), tparams: vec![], params: vec![("self".into(), bx.clone()), ("k".into(), I32)], ret: I32, body: blk(vec![], bin(BinOp::Add, Expr::Field(Box::new(var("self")), "n".into()), var("k"))) },
         ],
     }));
+    // Wr[T]: built and taken apart by generic functions (instantiated at generic applications too)
+    let wr = Ty::Struct("Wr".into(), vec![tp("T")]);
+    items.push(Item::Fn(fnd(
+        "mkwrg",
+        &[("T", &[])],
+        vec![("x", tp("T"))],
+        wr.clone(),
+        blk(
+            vec![],
+            Expr::StructLit {
+                name: "Wr".into(),
+                ty: wr.clone(),
+                fields: vec![
+                    ("inner".into(), Expr::StructLit { name: "Bx".into(), ty: boxt(tp("T")), fields: vec![("v".into(), var("x")), ("n".into(), i(1))] }),
+                    ("tag".into(), i(2)),
+                    ("alt".into(), Expr::Constr { enum_name: "Opt".into(), variant: "Non".into(), ty: opt(boxt(tp("T"))), args: vec![], qualified: true }),
+                ],
+            },
+        ),
+    )));
+    items.push(Item::Fn(fnd(
+        "unwrg",
+        &[("T", &[])],
+        vec![("w", wr.clone())],
+        tp("T"),
+        blk(
+            vec![Stmt::Let(Pat::Var("b".into()), Some(boxt(tp("T"))), Expr::Field(Box::new(var("w")), "inner".into()))],
+            Expr::Match(
+                Box::new(Expr::Field(Box::new(var("w")), "alt".into())),
+                vec![
+                    (Pat::Constr { enum_name: "Opt".into(), variant: "Som".into(), args: vec![Pat::Var("o".into())], qualified: true }, Expr::Field(Box::new(var("o")), "v".into())),
+                    (Pat::Constr { enum_name: "Opt".into(), variant: "Non".into(), args: vec![], qualified: true }, Expr::Field(Box::new(var("b")), "v".into())),
+                ],
+            ),
+        ),
+    )));
     // monomorphic unary functions used as callbacks
     items.push(Item::Fn(fnd("i_to_s", &[], vec![("x", I32)], Ty::Str, blk(vec![], bin(BinOp::Add, s("#"), bi("int32_to_string", vec![var("x")]))))));
     items.push(Item::Fn(fnd("i_to_b", &[], vec![("x", I32)], Ty::Bool, blk(vec![], bin(BinOp::Gt, var("x"), i(2))))));
@@ -282,7 +320,7 @@ fn gen_calls(g: &mut Gen, n: usize) -> Vec<Call> {
         let t = g.rng.pick_ref(&pool).clone();
         let u = g.rng.pick_ref(&pool).clone();
         let val = |g: &mut Gen, ty: &Ty| g.gen_expr(ty, 1, &[]);
-        let which = g.rng.below(19);
+        let which = g.rng.below(21);
         let c = match which {
             0 => Call { name: "idg", targs: vec![("T".into(), t.clone())], args: vec![val(g, &t)], ret: t.clone() },
             1 => Call { name: "pairg", targs: vec![("T".into(), t.clone()), ("U".into(), u.clone())], args: vec![val(g, &t), val(g, &u)], ret: Ty::Tuple(vec![t.clone(), u.clone()]) },
@@ -318,6 +356,7 @@ fn gen_calls(g: &mut Gen, n: usize) -> Vec<Call> {
                 let a = g.rng.pick_ref(&showable).clone();
                 Call { name: "weighg", targs: vec![("T".into(), a.clone())], args: vec![val(g, &a), i(g.rng.below(9) as i128)], ret: I32 }
             }
+            19 | 20 => Call { name: "unwrg", targs: vec![("T".into(), t.clone())], args: vec![Expr::Call { name: "mkwrg".into(), targs: vec![("T".into(), t.clone())], args: vec![val(g, &t)] }], ret: t.clone() },
             _ => {
                 let a = g.rng.pick_ref(&showable).clone();
                 let b = g.rng.pick_ref(&showable).clone();
@@ -418,7 +457,7 @@ fn run(ctx: &mut Ctx) {
             match diff::run_diff(c, &prog, &label, &opts) {
                 Outcome::Agree { .. } => c.count("programs_agree", 1),
                 Outcome::Rejected(st, msg) => c.violation(format!("C07:generic-program-rejected:{}", diff::msg_class(&msg)), format!("a well-typed generic program is rejected ({}): {}", st, util::truncate(&msg, 200)), json!({"label": label, "source": src})),
-                Outcome::Inconclusive(r) => c.inconclusive(diff::msg_class(&r)),
+                Outcome::Inconclusive(r) => diff::inconclusive_unless_crash(c, "C07", &r, &label, &src),
                 Outcome::Violation => {}
             }
             mono_monitor(c, &label, &src, &used);
